@@ -38,7 +38,7 @@ pub const SIMPLE_FIELDS: &[&str] = &["a", "b", "c", "n", "s", "arr", "o", "oa"];
 pub const WORDS: &[&str] = &["a", "b", "ab", "ba", "A", "aB", "abc", "x", "1", "3", "true", "", "a b", "bab"];
 pub const REGEXES: &[&str] = &[
     "a", "^a", "b$", "a.*b", ".*a", "a.*", ".*ab.*", "[ab]+", "a|b", "(?i)a", "\\d+", "^$", "a\\.*", ".*?b",
-    "(", "a{2}", ".*", "^ab$", "B",
+    "(", "a{2}", ".*", "^ab$", "B", "^.*a", "b.*$", "^.*ab.*$", ".*a$", "^a.*",
 ];
 pub const ODD_PATTERNS: &[&str] = &[
     "", "*", "**", "i", "?", "'", "\"", "i*", "i?", "''", "'a'", "\"a*\"", "i'A'", "***", "*a*b*", "=", ">", "=1", ">=3",
@@ -226,6 +226,7 @@ pub enum Cond {
     Cmp(String, &'static str, &'static str, String), // cast kind, field, op, literal
     CmpRev(String, &'static str, &'static str, String),
     StrEq(String, String),
+    CmpFF(String, &'static str, &'static str, String), // kind(f) op kind(g)
 }
 
 pub fn gen_cond(r: &mut Rng, ids: &[String], depth: usize) -> Cond {
@@ -258,8 +259,11 @@ pub fn gen_cond(r: &mut Rng, ids: &[String], depth: usize) -> Cond {
             let lit = r.pick(&["0.5", "1.0", "2.5"]).to_string();
             Cond::Cmp(f, "flt", op, lit)
         }
-    } else {
+    } else if r.chance(50) {
         Cond::StrEq(r.pick(SIMPLE_FIELDS).to_string(), r.pick(SIMPLE_FIELDS).to_string())
+    } else {
+        let kind = if r.chance(70) { "int" } else { "flt" };
+        Cond::CmpFF(r.pick(SIMPLE_FIELDS).to_string(), kind, *r.pick(&["==", ">", "<="]), r.pick(SIMPLE_FIELDS).to_string())
     }
 }
 
@@ -267,7 +271,7 @@ fn prec(c: &Cond) -> u8 {
     match c {
         Cond::And(_, _) => 70,
         Cond::Or(_, _) => 80,
-        Cond::Cmp(..) | Cond::CmpRev(..) | Cond::StrEq(..) => 90,
+        Cond::Cmp(..) | Cond::CmpRev(..) | Cond::StrEq(..) | Cond::CmpFF(..) => 90,
         Cond::Not(_) => 95,
         _ => 100,
     }
@@ -296,6 +300,7 @@ pub fn print_cond(c: &Cond, r: &mut Rng, extra_pct: u32) -> String {
         Cond::Cmp(f, k, op, lit) => format!("{}({}){}{}{}{}", k, f, sp(r), op, sp(r), lit),
         Cond::CmpRev(f, k, op, lit) => format!("{}{}{}{}{}({})", lit, sp(r), op, sp(r), k, f),
         Cond::StrEq(a, b) => format!("str({}){}=={}str({})", a, sp(r), sp(r), b),
+        Cond::CmpFF(a, k, op, b) => format!("{}({}){}{}{}{}({})", k, a, sp(r), op, sp(r), k, b),
         Cond::Not(x) => {
             let inner = print_cond(x, r, extra_pct);
             // `not` binds at 95: its operand must be an atom, a not, or parenthesised
@@ -319,7 +324,7 @@ pub fn print_cond(c: &Cond, r: &mut Rng, extra_pct: u32) -> String {
     wrap(s, r)
 }
 
-pub const DOC_STRINGS: &[&str] = &["a", "b", "ab", "ba", "A", "aB", "abc", "x", "", "1", "3", "true", "bab", "xaby", "AB", "a b", "Ä", "ä", "日a", "2.5", "1.0", " 1", "1e3", "nan", "inf", "-1", "+3", "9223372036854775808"];
+pub const DOC_STRINGS: &[&str] = &["x\na", "ab\nx", "b\na b", "a", "b", "ab", "ba", "A", "aB", "abc", "x", "", "1", "3", "true", "bab", "xaby", "AB", "a b", "Ä", "ä", "日a", "2.5", "1.0", " 1", "1e3", "nan", "inf", "-1", "+3", "9223372036854775808"];
 
 pub fn gen_doc_scalar(r: &mut Rng) -> Yaml {
     match r.below(16) {
@@ -444,5 +449,190 @@ pub fn yaml_strings(y: &Yaml, out: &mut Vec<String>) {
             yaml_strings(v, out)
         }),
         _ => {}
+    }
+}
+
+
+// ---------------------------------------------------------------------------------------------
+// Shapes that need something specific to manifest (matrix-triggering or-chains, same-field nested
+// conjuncts, long needle lists, undefined identifiers behind casts, multi-level nesting).
+
+fn m1(k: &str, v: Yaml) -> Yaml {
+    let mut m = Mapping::new();
+    m.insert(ys(k), v);
+    Yaml::Mapping(m)
+}
+
+pub fn words64(r: &mut Rng, n: usize) -> Vec<String> {
+    (0..n)
+        .map(|i| {
+            let w = format!("w{}x", i);
+            match r.below(4) {
+                0 => format!("*{}*", w),
+                1 => format!("{}*", w),
+                2 => format!("*{}", w),
+                _ => format!("*{}*", w),
+            }
+        })
+        .collect()
+}
+
+/// Returns (detection entries incl. condition, extra documents tailored to the shape).
+pub fn gen_special(r: &mut Rng) -> (Vec<(String, Yaml)>, Vec<Yaml>) {
+    let k = r.below(6);
+    gen_special_kind(r, k)
+}
+
+pub fn gen_special_kind(r: &mut Rng, kind: usize) -> (Vec<(String, Yaml)>, Vec<Yaml>) {
+    let pat = |r: &mut Rng| ys(*r.pick(&["a", "a*", "*b", "*ab*", "x", "ib", "?a", "3"]));
+    match kind {
+        0 => {
+            // or-chain of comparisons / identifiers sharing fields: triggers matrix after shake
+            let fields = ["a", "n"];
+            let k = 3 + r.below(2);
+            let mut parts = vec![];
+            for _ in 0..k {
+                let f = *r.pick(&fields);
+                let g = *r.pick(&fields);
+                parts.push(match r.below(5) {
+                    0 => format!("int({}) == int({})", f, g),
+                    1 => format!("flt({}) >= 0.5", f),
+                    2 => "A".to_string(),
+                    3 => format!("{} < int({})", r.below(4), f),
+                    _ => format!("int({}) {} {}", f, r.pick(&["==", ">", "<="]), r.below(4)),
+                });
+            }
+            let cond = if r.chance(25) { format!("not ({})", parts.join(" or ")) } else { parts.join(" or ") };
+            let det = vec![("A".to_string(), m1(*r.pick(&fields), pat(r))), ("condition".to_string(), ys(&cond))];
+            (det, vec![])
+        }
+        1 => {
+            // two or three nested conjuncts on the same field
+            let f = *r.pick(&["oa", "o"]);
+            let a = m1(f, m1("k", pat(r)));
+            let b = m1(f, m1(*r.pick(&["p", "q", "k"]), pat(r)));
+            let c = m1("s", pat(r));
+            let cond = *r.pick(&["A and B and C", "not (A and B and C)", "B and A and C", "A and B and C and A", "C and (A and B and C)", "A and B"]);
+            let det = vec![("A".to_string(), a), ("B".to_string(), b), ("C".to_string(), c), ("condition".to_string(), ys(cond))];
+            let mut docs = vec![];
+            for _ in 0..3 {
+                let n = 1 + r.below(3);
+                let elems: Vec<Yaml> = (0..n)
+                    .map(|_| {
+                        let mut o = Mapping::new();
+                        for g in ["k", "p", "q"] {
+                            if r.chance(55) {
+                                o.insert(ys(g), ys(*r.pick(&["a", "ab", "b", "x", "3", "xb"])));
+                            }
+                        }
+                        Yaml::Mapping(o)
+                    })
+                    .collect();
+                let mut d = Mapping::new();
+                d.insert(ys(f), if r.chance(75) { Yaml::Sequence(elems) } else { elems[0].clone() });
+                if r.chance(80) {
+                    d.insert(ys("s"), ys(*r.pick(&["a", "ab", "b", "x", "3"])));
+                }
+                docs.push(Yaml::Mapping(d));
+            }
+            (det, docs)
+        }
+        2 => {
+            // a long needle list (>= 64 members) under all()/of()/plain
+            let n = 64 + r.below(8);
+            let ws = words64(r, n);
+            let key = match r.below(4) {
+                0 => "all(s)".to_string(),
+                1 => format!("of(s, {})", 1 + r.below(3)),
+                2 => "of(s, 0)".to_string(),
+                _ => "s".to_string(),
+            };
+            let det = vec![("A".to_string(), m1(&key, Yaml::Sequence(ws.iter().map(|w| ys(w)).collect()))), ("condition".to_string(), ys(*r.pick(&["A", "not A"])))];
+            let mut docs = vec![];
+            for _ in 0..4 {
+                let k = r.below(4);
+                let mut text = String::new();
+                for _ in 0..k {
+                    text.push_str(&format!("w{}x ", r.below(n)));
+                }
+                if r.chance(10) {
+                    text = (0..n).map(|i| format!("w{}x", i)).collect::<Vec<_>>().join(" ");
+                }
+                docs.push(m1("s", ys(text.trim())));
+            }
+            (det, docs)
+        }
+        3 => {
+            // an undefined identifier, possibly behind a cast
+            let cond = *r.pick(&["int(n) == 1 and Z", "int(n) > 0 or not Z", "A and all(Z)", "flt(n) >= 0.5 and of(Z, 1)", "Z", "int(n) == 1 and A and Z", "str(a) == str(b) or Z"]);
+            let det = vec![("A".to_string(), m1("a", pat(r))), ("condition".to_string(), ys(cond))];
+            (det, vec![])
+        }
+        4 => {
+            // a sequence of mappings sharing cast fields: matrix rows with casts
+            let rows: Vec<Yaml> = (0..2 + r.below(2))
+                .map(|_| {
+                    let mut m = Mapping::new();
+                    let key = *r.pick(&["int(n)", "flt(n)", "n", "str(n)"]);
+                    let v = match key {
+                        "flt(n)" => Yaml::Number((*r.pick(&[2.5f64, 1.0, 3.0])).into()),
+                        "str(n)" => ys(*r.pick(&["3", "1", "2.5"])),
+                        _ => Yaml::Number((*r.pick(&[1i64, 3, 0])).into()),
+                    };
+                    m.insert(ys(key), v);
+                    m.insert(ys(*r.pick(&["s", "a"])), ys(*r.pick(&["a*", "*b", "x", "ab"])));
+                    Yaml::Mapping(m)
+                })
+                .collect();
+            let cond = *r.pick(&["X", "not X", "all(X)", "of(X, 2)", "of(X, 0)"]);
+            let det = vec![("X".to_string(), Yaml::Sequence(rows)), ("condition".to_string(), ys(cond))];
+            let mut docs = vec![];
+            for _ in 0..3 {
+                let mut d = Mapping::new();
+                d.insert(ys("n"), match r.below(6) {
+                    0 => ys(*r.pick(&["3", "1", "2.5", "x"])),
+                    1 => Yaml::Number((*r.pick(&[3.0f64, 1.0, 2.5, 0.4])).into()),
+                    2 => Yaml::Bool(r.chance(50)),
+                    _ => Yaml::Number((*r.pick(&[1u64, 3, 0, 2])).into()),
+                });
+                for f in ["s", "a"] {
+                    if r.chance(80) {
+                        d.insert(ys(f), ys(*r.pick(&["a", "ab", "b", "x", "xb"])));
+                    }
+                }
+                docs.push(Yaml::Mapping(d));
+            }
+            (det, docs)
+        }
+        _ => {
+            // multi-level nesting with arrays at intermediate levels
+            let leaf = pat(r);
+            let det = vec![
+                ("A".to_string(), m1("o", m1("p", m1("q", leaf.clone())))),
+                ("B".to_string(), m1("o.p.q", leaf.clone())),
+                ("condition".to_string(), ys(*r.pick(&["A", "B", "A or B", "A and not B", "not A"]))),
+            ];
+            let v = || -> Vec<&str> { vec!["a", "ab", "b", "x", "xb", "3"] };
+            let mut docs = vec![];
+            for _ in 0..4 {
+                let q1 = ys(*r.pick(&v()));
+                let q2 = ys(*r.pick(&v()));
+                let d = match r.below(5) {
+                    0 => m1("o", m1("p", Yaml::Sequence(vec![m1("q", q1), m1("q", q2)]))),
+                    1 => m1("o", Yaml::Sequence(vec![m1("p", m1("q", q1)), m1("p", m1("q", q2))])),
+                    2 => m1("o", m1("p", m1("q", q1))),
+                    3 => {
+                        let mut d = Mapping::new();
+                        d.insert(ys("o"), ys("scalar"));
+                        d.insert(ys("p"), m1("q", q1));
+                        d.insert(ys("q"), q2);
+                        Yaml::Mapping(d)
+                    }
+                    _ => m1("o", m1("p", Yaml::Sequence(vec![q1, m1("q", q2)]))),
+                };
+                docs.push(d);
+            }
+            (det, docs)
+        }
     }
 }
